@@ -182,7 +182,8 @@ class MDmrgStart(e1.Op):
         method = rng.choice(["1site", "2site", "2site"])
         args = {"H": gen_H(g), "n": reachable_charge(g), "D": rng.choice([1, 2, 4, 4, 8, 8, 16]), "dtype": "complex128" if rng.random() < 0.35 else "float64",
                 "method": method, "precompute": rng.random() < 0.5, "full": rng.random() < 0.3,
-                "opts_eigs": rng.choice([None, None, {"hermitian": True, "ncv": 4, "which": "SR"}, {"hermitian": True, "ncv": 8, "which": "SR"}]),
+                "opts_eigs": rng.choice([None, None, {"hermitian": True, "ncv": 4, "which": "SR"}, {"hermitian": True, "ncv": 8, "which": "SR"},
+                                         {"hermitian": True, "ncv": 5}, {"hermitian": True, "ncv": 6, "tol": 1e-12}]),    # partial dictionaries rely on the solver's own defaults (seeded C09-c)
                 "opts_svd": rng.choice([{"tol": 1e-14, "D_total": 4096}, {"tol": 1e-13}, {"D_total": 4096}]),
                 "project": rng.random() < 0.25, "penalty": rng.choice([None, 50.0]), "max_sweeps": rng.randint(2, 8)}
         if args["project"]:
